@@ -88,7 +88,8 @@ def run(ctx):
             key = "trace/%s" % ev
         else:
             key = "trace/%s" % ev
-        ctx.report(key, "implementation event %d not allowed by TxSigning (property layer): %s" % (idx + 1, json.dumps(first)[:400]),
+        brief = dict(first, body=str(first.get("body", ""))[:16] + "..")
+        ctx.report(key, "implementation event %d not allowed by TxSigning (property layer): %s" % (idx + 1, json.dumps(brief)[:400]),
                    payload={"event_index": idx + 1, "event": first, "previous": events[max(0, idx - 3):idx]}, src_file=part)
         nxt = next((i for i in range(idx + 1, len(events)) if events[i]["ev"] == "built"), None)
         if nxt is None:
